@@ -306,7 +306,7 @@ def _run_case(case, ctx):
             out, errs = D.parafac(Xin.copy(), rank, n_iter_max=k, mask=mask.copy(), random_state=seed, tol=tiny, return_errors=True, callback=mcb, **mopts)
             out_ = ("+sparse", decomp.snapshot(out[0]), np.asarray(out[1])) if _with_sparse(out) else ("plain", decomp.snapshot(out), 0.0)
             pairs = [(out_, float(errs[-1]), "last of %d" % k)] if errs else []
-            pairs += [(d_, e_, "callback #%d of the %d-sweep run" % (j_, k)) for j_, (d_, e_) in enumerate(recs) if e_ is not None and j_ >= 1]
+            pairs += [(d_, e_, "callback #%d of the %d-sweep run" % (j_, k)) for j_, (d_, e_) in enumerate(recs) if e_ is not None]
             for dec_, rep_, where in pairs:
                 form_, (w_, f_), S_ = dec_
                 if form_ == "+sparse":
